@@ -8,6 +8,8 @@
 #include <algorithm>
 #include <cmath>
 
+bool cold_candidate(uint64_t seed, uint64_t run);
+
 namespace {
 
 struct Ev { int64_t t; uint64_t seq; Op op; };
@@ -253,6 +255,7 @@ struct Gen {
     int add_session(int flow, int codec, int m, int role, const std::string &mode, const std::string &cb, const std::string &tag, const std::string &tx) {
         Session s; s.id = next_ses++; s.flow = flow; s.codec = codec; s.m = m; s.role = role; s.mode = mode; s.cb = cb; s.tag = tag; s.tx = tx;
         s.cbseed = rng.next() & 0xffff; s.align = rng.chance(0.35) ? 0 : (int)rng.below(16);
+        s.both = o.allow_both && rng.chance(0.08) ? 1 : 0;
         plan.sessions.push_back(s);
         return s.id;
     }
@@ -484,7 +487,7 @@ struct Gen {
         // cold start sample: first use of codec 1 happens inside this run, in a process that never touched the library
         bool has_rs8 = false;
         for (auto &s : plan.sessions) if (s.codec == C_RS8) has_rs8 = true;
-        plan.cold = has_rs8 && rng.chance(0.05);
+        plan.cold = cold_candidate(seed, run_index) && rng.chance(has_rs8 ? 0.7 : 0.3);
         for (auto &e : evs) plan.ops.push_back(e.op);
         if (plan.ops.size() > 60000) plan.ops.resize(60000);
         return plan;
@@ -561,6 +564,10 @@ Plan generate_sweep_plan(uint64_t seed, uint64_t index, const GenOptions &opt) {
     p.gen["dropped"] = (int64_t)(n - got.size()); p.gen["delivered"] = (int64_t)got.size();
     return p;
 }
+
+// run indices whose plan may ask for a cold start (a pure function of seed and index, so that the worker's supervisor
+// can run them in a pristine child without generating the plan first)
+bool cold_candidate(uint64_t seed, uint64_t run) { return mix64(seed ^ 0xC01DULL, run) % 40 == 0; }
 
 Plan generate_plan(uint64_t seed, uint64_t run, const GenOptions &opt) {
     Hash64 h; h.str(opt.profile.c_str());
